@@ -95,6 +95,11 @@ type schedSide struct {
 	pendingDisclose map[string]string // accepted keys whose pair has been retired and that must be in the next outgoing data message -> what was accepted under them
 	disclosed       map[string]bool
 	seenWire        [][]byte // whole data messages delivered to this side (for replay)
+	// accepted keys whose pairs went away when this side ended the conversation itself: nothing says in
+	// which data message they have to appear, only that a later one discloses them (-> what was accepted)
+	owed      map[string]string
+	owedAtEnd int
+	dataSince int // data messages emitted since the keys in owed became owed
 }
 
 type schedLink struct {
@@ -143,7 +148,9 @@ func (sl *schedLink) inspectOutgoing(p *party, ms []otr3.ValidMessage) {
 				}
 			}
 			s.disclosed[h] = true
+			delete(s.owed, h)
 		}
+		s.dataSince++
 		for h, what := range s.pendingDisclose {
 			if !got[h] && !s.disclosed[h] {
 				olog.viol("C09", "used-key-not-disclosed", fmt.Sprintf("%s retired a MAC key it had accepted a message under but the next data message does not disclose it: receiving MAC key of key pair %s", p.id, what))
@@ -156,6 +163,30 @@ func (sl *schedLink) inspectOutgoing(p *party, ms []otr3.ValidMessage) {
 		olog.viol("C19", "state-grows", fmt.Sprintf("%s retains counters=%d macHistory=%d oldMACKeys=%d resend=%d injections=%d",
 			p.id, len(snap.Counters), len(snap.MacHistory), snap.OldMACKeys, len(snap.Resend), snap.Injections))
 	}
+}
+
+// p has ended the conversation itself: every key it accepted a message under and has not disclosed yet
+// is retired now (no message is accepted any more); End leaves them with the conversation so that a
+// later session discloses them
+func (sl *schedLink) oweAll(p *party) {
+	s := sl.side(p)
+	if s.owed == nil {
+		s.owed = map[string]string{}
+	}
+	for h, pair := range s.acceptedKeys {
+		if !s.disclosed[h] {
+			s.owed[h] = pair
+		}
+		delete(s.acceptedKeys, h)
+	}
+	for h, pair := range s.pendingDisclose { // (retired, no data message since)
+		if !s.disclosed[h] {
+			s.owed[h] = pair
+		}
+		delete(s.pendingDisclose, h)
+	}
+	s.dataSince = 0
+	s.owedAtEnd = len(s.owed)
 }
 
 // after any call on p: which accepted keys have left the window?
@@ -927,6 +958,233 @@ func (g *gen) reAkeDisclosure(w *world) {
 	sl.drain()
 }
 
+// C09 across a conversation the local side ended itself: End() keeps the MAC keys that were used (and
+// those waiting) so that the next session discloses them. X accepts messages from Y, X.End(), a new key
+// exchange on the same objects (query from either side, Y having ended too or not), ping-pong: every
+// key X accepted a message under before End shows up in some data message X emits afterwards (the
+// empty one that follows the completed exchange included).
+func (g *gen) endThenReAkeDisclosure(w *world) {
+	version := 2 + g.r.Intn(2)
+	sl := newSchedLink(w, g, version, 0, 0)
+	if !sl.a.c.IsEncrypted() || !sl.b.c.IsEncrypted() {
+		return
+	}
+	X, Y := sl.a, sl.b
+	if g.r.Intn(2) == 0 {
+		X, Y = Y, X
+	}
+	var hist []string
+	for i := 0; i < g.r.Intn(3); i++ {
+		sl.sendText(Y, g.cleanText())
+		sl.drain()
+		hist = append(hist, "text "+Y.id+"->"+X.id)
+		if g.r.Intn(2) == 0 {
+			sl.sendText(X, g.cleanText())
+			sl.drain()
+			hist = append(hist, "text "+X.id+"->"+Y.id)
+		}
+	}
+	last := g.cleanText()
+	sl.sendText(Y, last)
+	sl.drain() // X has accepted at least this one under a key it has not disclosed
+	hist = append(hist, fmt.Sprintf("text %q %s->%s", last, Y.id, X.id))
+	if w.dead || !X.c.IsEncrypted() || !Y.c.IsEncrypted() {
+		return
+	}
+	ts, _ := w.end(X)
+	sl.inspectOutgoing(X, ts) // (the disconnect message discloses what was already waiting)
+	sl.oweAll(X)
+	lost := g.r.Intn(3) == 0
+	if lost {
+		// the disconnect message is lost: Y still believes in the old session and replaces it in the
+		// key exchange that follows (its own used keys travel the ordinary way, checked as everywhere)
+		hist = append(hist, X.id+".End() (disconnect message lost)")
+	} else {
+		sl.enqueue(X, ts)
+		sl.drain()
+		hist = append(hist, X.id+".End() (disconnect delivered)")
+		// Y is told that the conversation is over: the MAC keys it has used are owed from now on as well
+		// (repaired library: they wait for the first data message of the next conversation)
+		sl.oweAll(Y)
+		if g.r.Intn(2) == 0 && !w.dead {
+			ts, _ := w.end(Y)
+			sl.inspectOutgoing(Y, ts)
+			sl.enqueue(Y, ts)
+			sl.drain()
+			hist = append(hist, Y.id+".End()")
+		}
+	}
+	if w.dead {
+		return
+	}
+	if lost || g.r.Intn(3) == 0 {
+		// (a query that reaches an encrypted conversation less than a minute after its session began is
+		// not answered)
+		w.tick(61)
+		hist = append(hist, "61 s later")
+	}
+	st := []*party{X, Y}[g.r.Intn(2)]
+	sl.enqueue(st, []otr3.ValidMessage{w.query(st)})
+	sl.drain()
+	hist = append(hist, "query from "+st.id+", key exchange")
+	if w.dead || !X.c.IsEncrypted() || !Y.c.IsEncrypted() {
+		g.dist["sched:end-re-ake-no-session"]++
+		return
+	}
+	rounds := 3 + g.r.Intn(2)
+	for i := 0; i < rounds && !w.dead; i++ {
+		first, second := X, Y
+		if g.r.Intn(2) == 0 {
+			first, second = Y, X
+		}
+		sl.sendText(first, g.cleanText())
+		sl.drain()
+		sl.sendText(second, g.cleanText())
+		sl.drain()
+	}
+	hist = append(hist, fmt.Sprintf("%d rounds of ping-pong", rounds))
+	if w.dead {
+		return
+	}
+	for _, s := range []*schedSide{sl.sa, sl.sb} {
+		olog.ok("C09")
+		if len(s.owed) > 0 {
+			var pairs []string
+			for _, pr := range s.owed {
+				pairs = append(pairs, pr)
+			}
+			olog.viol("C09", "used-key-not-disclosed:after-end", fmt.Sprintf("OTRv%d: %s; %s had accepted messages under %d MAC key(s) not yet disclosed when it called End(); %d of them (receiving MAC key of key pair %s of the ended session) appear in none of the %d data messages %s has emitted since, in the new session on the same conversation", version, strings.Join(hist, ", "), s.p.id, s.owedAtEnd, len(s.owed), strings.Join(pairs, ","), s.dataSince, s.p.id))
+		}
+	}
+	for _, s := range []*schedSide{sl.sa, sl.sb} {
+		if len(s.expect) > 0 && !w.dead {
+			olog.viol("C04", "lost", fmt.Sprintf("%s never received %d text(s) the peer sent, first %q", s.p.id, len(s.expect), s.expect[0]))
+		}
+	}
+	g.dist["sched:end-re-ake-disclosure"]++
+}
+
+// C19 against an authenticated peer that is eager but conforming: it moves on to the DH key it has
+// announced with every message it sends, without waiting for our acknowledgement (the receiving rules
+// accept that: sender key id == their current key id rotates their key). Our side therefore sees one
+// rotation of THEIR key per message while its own key stays (it answers only every 8th message, and
+// the answers are lost or arrive). The peer is driven outside the trace (plain Go calls, hook
+// VerifAdvanceOurDHKey); everything our side does goes through w.recv / w.send and is replayed.
+// Bounds (Props.C19): at most one counter record and one used MAC key per pair of the 2x2 key window,
+// and at most 3 keys join the reveal queue per accepted message; every send empties the queue (which
+// legitimately holds one key per message received since our last send under this peer).
+func (g *gen) eagerPeerStream(w *world) {
+	version := 2 + g.r.Intn(2)
+	pol := 2
+	if version == 3 {
+		pol = 4
+	}
+	A := w.newParty(partyCfg{policies: pol, keyIdx: 0, errh: true})
+	B := &otr3.Conversation{}
+	B.Rand = rand.New(rand.NewSource(g.r.Int63()))
+	verifSetPolicies(B, pol)
+	B.SetOurKeys([]otr3.PrivateKey{testKeys[1]})
+	toB := []otr3.ValidMessage{w.query(A)}
+	for i := 0; i < 12 && len(toB) > 0 && !w.dead; i++ {
+		var toA []otr3.ValidMessage
+		for _, m := range toB {
+			_, ts, _ := B.Receive(m)
+			toA = append(toA, ts...)
+		}
+		toB = nil
+		for _, m := range toA {
+			_, ts, _, _ := w.recv(A, m)
+			toB = append(toB, ts...)
+		}
+	}
+	if w.dead || !A.c.IsEncrypted() || !B.IsEncrypted() {
+		g.dist["sched:eager-peer-no-session"]++
+		return
+	}
+	n := 60 + g.r.Intn(30)
+	every := 8
+	answersLost := g.r.Intn(3) != 0
+	accSince := 0 // messages accepted since our last data message
+	flagged := false
+	first := ""
+	defer func() {
+		if first != "" && !w.dead {
+			snap := otr3.VerifSnapshot(A.c)
+			olog.viol("C19", "state-grows", fmt.Sprintf("%s; when the stream ends (key ids our=%d their=%d) it retains counters=%d macHistory=%d oldMACKeys=%d", first, snap.OurKeyID, snap.TheirKeyID, len(snap.Counters), len(snap.MacHistory), snap.OldMACKeys))
+		} else if first != "" {
+			olog.viol("C19", "state-grows", first)
+		}
+	}()
+	what := func(i int) string {
+		l := "delivered"
+		if answersLost {
+			l = "lost on the way"
+		}
+		return fmt.Sprintf("OTRv%d: an authenticated peer that moves on to its announced DH key with every message (no acknowledgement awaited) streams %d texts, %s answers every %dth (answers %s); after text %d", version, n, A.id, every, l, i)
+	}
+	check := func(i int) {
+		olog.ok("C19")
+		snap := otr3.VerifSnapshot(A.c)
+		if flagged {
+			return
+		}
+		if len(snap.Counters) > 6 || len(snap.MacHistory) > 6 || snap.OldMACKeys > 3*accSince || len(snap.Resend) > 1 || snap.Injections > 4 {
+			flagged = true
+			first = (fmt.Sprintf("%s %s retains counters=%d macHistory=%d oldMACKeys=%d (%d message(s) accepted since its last data message) resend=%d injections=%d; key ids our=%d their=%d",
+				what(i), A.id, len(snap.Counters), len(snap.MacHistory), snap.OldMACKeys, accSince, len(snap.Resend), snap.Injections, snap.OurKeyID, snap.TheirKeyID))
+		}
+	}
+	for i := 1; i <= n && !w.dead; i++ {
+		text := g.cleanText()
+		ms, err := B.Send(text)
+		if err != nil || len(ms) != 1 {
+			g.dist["sched:eager-peer-send-failed"]++
+			return
+		}
+		if otr3.VerifAdvanceOurDHKey(B) != nil {
+			return
+		}
+		plain, back, _, _ := w.recv(A, ms[0])
+		if w.dead {
+			return
+		}
+		if !bytes.Equal(plain, text) {
+			g.dist["sched:eager-peer-not-accepted"]++ // (nothing to say about C19 then)
+			return
+		}
+		accSince++
+		for _, m := range back {
+			if isDataWire(m) {
+				accSince = 0
+			}
+		}
+		check(i)
+		if i%every == 0 {
+			ts, _ := w.send(A, g.cleanText())
+			if w.dead {
+				return
+			}
+			for _, m := range reassembleAll(ts) {
+				if old, ok := otr3.VerifOldMACKeys(m); ok {
+					olog.ok("C19")
+					if len(old) > 3*accSince && !flagged {
+						flagged = true
+						olog.viol("C19", "reveal-field-grows", fmt.Sprintf("%s the answer of %s reveals %d MAC keys, %d message(s) accepted since its last data message", what(i), A.id, len(old), accSince))
+					}
+					accSince = 0
+				}
+			}
+			check(i)
+			if !answersLost {
+				for _, m := range ts {
+					B.Receive(m)
+				}
+			}
+		}
+	}
+	g.dist["sched:eager-peer-stream"]++
+}
+
 // C09: a MAC key is used as soon as a message has been accepted under it, whatever happens to the
 // TLVs of that message afterwards. The first data message of a session (the only one its addressee
 // gets under the pair 1:1, and the addressee has not sent under that pair) carries a text, an SMP TLV
@@ -1012,6 +1270,16 @@ func init() {
 				w.parties = map[string]*party{}
 				w.dead = false
 				g.unreadableTlvKeyUse(w)
+			}
+			if i%3 != 2 {
+				w.parties = map[string]*party{}
+				w.dead = false
+				g.endThenReAkeDisclosure(w)
+			}
+			if i%4 == 1 {
+				w.parties = map[string]*party{}
+				w.dead = false
+				g.eagerPeerStream(w)
 			}
 		}
 		extra["panics"] = panicCount
